@@ -352,6 +352,7 @@ func runC18(c *Ctx) {
 	}
 	c18ShortWrites(c)
 	c18SharedOptions(c)
+	c18FailedSends(c)
 	// MaxTxPacket above the page size
 	for _, n := range []int{262145, 300000, 1 << 20} {
 		for _, reqServer := range []bool{true, false} {
